@@ -118,7 +118,7 @@ def impl_oracles(text):
     p = r["printed"]
     r2 = impl_parse(p)
     if r2["kind"] != "ok":
-        out.append(({"kind": "reprint_fails", "printed_has_brace": "{" in p, "second": r2["kind"]},
+        out.append(({"kind": "reprint_fails", "printed_has_brace": "{" in p, "printed_nested_dots": "......" in p and "{" not in p, "second": r2["kind"]},
                     {"input": text, "printed": p, "second": r2}))
     elif strip_pos(r2["tree"]) != strip_pos(r["tree"]):
         out.append(({"kind": "reprint_differs"}, {"input": text, "printed": p, "first": r["tree"], "second": r2["tree"]}))
